@@ -1222,7 +1222,6 @@ Theorem C01_zero_referent_breaks_forest :
           encode_file db0 ep0 None zero_dom [0] = Ok b /\
           decode_file db0 (dp0 None) b = Ok out /\ children_of out 0 = [1; 2] /\ children_of out 2 = []).
 Proof. exact zero_referent_breaks_forest. Qed.
-
 (* ==== CLOSED WHOLE-FILE STATEMENT FOR DATABASE-KNOWN PROPERTIES (Proofs/BinKnownProps.v).  Under executable predicates on the DOM (dom_values_ok:
    the range conditions of the column theorems and, per property, the reader's back-lookup of the serialized name returning the same canonical
    name; dom_sstrs_ok) and on the database (class_good, spelling agreement: both passed by the bundled database, the back-lookup with exactly the two
@@ -1230,10 +1229,11 @@ Proof. exact zero_referent_breaks_forest. Qed.
    legacy or alias name survives, and for every column of the instance's class the decoded instance holds under the CANONICAL name: normB of its
    own (migrated) value when it carried a spelling of the property, and normB of the (migrated) default of its own class (nearest ancestor) when
    it did not but a class-mate did — never another instance's value.  normB = the documented normalisations only (String-like of unknown
-   properties as BinaryString, Color3 quantised into byte colours, Refs through the numbering, CFrame rotation snap).  22 of the 31 wire types
-   (the rest stays with the generic-in-the-column-law theorem above and the per-case differential run).  Computed on the bundled database:
+   properties as BinaryString, Color3 quantised into byte colours, Refs through the numbering, CFrame rotation snap).  ALL 31 wire types, the widening
+   cells (Int32 for Int64, Float32 for Float64, EnumItem, Int32 in BrickColor) and the string-likes in String columns (Tags, Attributes,
+   MaterialColors, ContentId) included; a UniqueId already in use reads back as the fresh one (reads_back).  Computed on the bundled database:
    a Part with legacy BrickColor 21, a Part with Size only, an instance of an unknown class. *)
-From RbxVerif Require Import DbCheck Attr BinPostorder BinStructure BinTypeInfoFacts BinKnownProps.
+From RbxVerif Require Import DbCheck Attr BinPostorder BinStructure BinTypeInfoFacts BinKnownProps BinKnownPropsBundled.
 From RbxVerif Require BinRoundTrip Database.
 
 Theorem C01_known_col_roundtrip :
@@ -1242,7 +1242,11 @@ Theorem C01_known_col_roundtrip :
        (forall r : N, in_i32 (ref_id c r) = true) ->
        forall (wt : wire_type) (cty : N) (vs : list value),
        vs <> [] ->
+       N.of_nat (Datatypes.length vs) < 2 ^ 32 ->
        Forall (fun v : value => cell_ok wt cty v = true) vs ->
+       (forall s : bytes,
+        In (VSharedString s) vs ->
+        BinValuesFacts3.sstr_ok c dc s = true /\ BinValuesFacts3.sstr_back c dc s = s) ->
        exists b : bytes,
          enc_col wt c vs = Ok b /\
          dec_col wt cty dc (Datatypes.length vs) (b ++ []) =
@@ -1325,14 +1329,14 @@ Theorem C01_known_props_roundtrip :
                 forall (n : bytes) (v : value) (s : bytes) (ty : N) (m : option migop),
                 In (n, v) (i_props i) ->
                 resolve_prop d cn n v = Ok (RProp canon s ty m) ->
-                bfind canon (i_props i') =
-                Some (normB (ep_quant ep) (BinRoundTrip.ref_new st) (pi_type pi) cty (migv ep m v))) /\
+                reads_back p canon
+                  (normB (ep_quant ep) (BinRoundTrip.ref_new st) (pi_type pi) cty (migv ep m v)) 
+                  (i_props i')) /\
                ((forall (n : bytes) (v : value) (s : bytes) (ty : N) (m : option migop),
                  In (n, v) (i_props i) -> resolve_prop d cn n v <> Ok (RProp canon s ty m)) ->
-                bfind canon (i_props i') =
-                Some
+                reads_back p canon
                   (normB (ep_quant ep) (BinRoundTrip.ref_new st) (pi_type pi) cty
-                     (migv ep (pi_migration pi) (pi_default pi))) /\
+                     (migv ep (pi_migration pi) (pi_default pi))) (i_props i') /\
                 (exists ty0 : N,
                    col_plan d (get_class d (string_of_bytes cn)) canon ty0 = Ok (pi_default pi, pi_type pi))))).
 Proof. exact known_props_roundtrip. Qed.
@@ -1379,14 +1383,14 @@ Theorem C01_known_props_roundtrip_bundled :
                 forall (n : bytes) (v : value) (s : bytes) (ty : N) (m : option migop),
                 In (n, v) (i_props i) ->
                 resolve_prop Database.database cn n v = Ok (RProp canon s ty m) ->
-                bfind canon (i_props i') =
-                Some (normB (ep_quant ep) (BinRoundTrip.ref_new st) (pi_type pi) cty (migv ep m v))) /\
+                reads_back p canon
+                  (normB (ep_quant ep) (BinRoundTrip.ref_new st) (pi_type pi) cty (migv ep m v)) 
+                  (i_props i')) /\
                ((forall (n : bytes) (v : value) (s : bytes) (ty : N) (m : option migop),
                  In (n, v) (i_props i) -> resolve_prop Database.database cn n v <> Ok (RProp canon s ty m)) ->
-                bfind canon (i_props i') =
-                Some
+                reads_back p canon
                   (normB (ep_quant ep) (BinRoundTrip.ref_new st) (pi_type pi) cty
-                     (migv ep (pi_migration pi) (pi_default pi))) /\
+                     (migv ep (pi_migration pi) (pi_default pi))) (i_props i') /\
                 (exists ty0 : N,
                    col_plan Database.database (get_class Database.database (string_of_bytes cn)) canon ty0 =
                    Ok (pi_default pi, pi_type pi))))).
@@ -1414,4 +1418,38 @@ Theorem C01_bundled_example_roundtrip :
           (bstr "Color", VColor3uint8 163 162 165)]);
         (bstr "NotAClass", bstr "C", [(bstr "Note", VBinaryString [104; 105]); (bstr "Flag", VBool true)])].
 Proof. exact bundled_example_roundtrip. Qed.
+
+Theorem C01_all_cells_roundtrip :
+  dom_values_ok db_cells ep_cells cells_dom = true /\
+       (exists (b : bytes) (st : ser_state) (out : cdom),
+          encode_file db_cells ep_cells None cells_dom [1; 2] = Ok b /\
+          add_instances db_cells ep_cells cells_dom [1; 2] = Ok st /\
+          decode_file db_cells dp_cells b = Ok out /\
+          BinRoundTrip.same_forest cells_dom [Node 1 []; Node 2 []] (BinRoundTrip.lbl st) out) /\
+       look (' b <- encode_file db_cells ep_cells None cells_dom [1; 2];; decode_file db_cells dp_cells b)
+         (bstr "all")
+         [bstr "N64"; bstr "F64"; bstr "En"; bstr "Bc"; bstr "St"; bstr "At"; bstr "Fo"; bstr "Ss"; bstr "Uq"] =
+       [Some (VInt64 7); Some (VFloat64 4607182418800017408); Some (VEnum 1); Some (VBrickColor 21);
+        Some (VString [104; 105]); Some (VAttributes [([120], VBool true)]);
+        Some (VFont {| fo_family := [102]; fo_weight := 400; fo_style := 0; fo_cached := None |});
+        Some (VSharedString [7; 7]); Some (VUniqueId 1 2 3)] /\
+       look (' b <- encode_file db_cells ep_cells None cells_dom [1; 2];; decode_file db_cells dp_cells b)
+         (bstr "none") [bstr "N64"; bstr "At"; bstr "Ss"; bstr "Uq"; bstr "AtS"] =
+       [Some (VInt64 0); Some (VAttributes []); Some (VSharedString []); Some (VUniqueId 0 0 0); None].
+Proof. exact all_cells_roundtrip. Qed.
+
+Theorem C01_normB_attributes :
+  forall (q : f32 -> N) (rn : N -> N) (m : amap) (b : bytes),
+       AttrFacts.wf_amap m = true ->
+       attr_encode m = Ok b -> normB q rn WString VT_Attributes (VAttributes m) = VAttributes (norm m).
+Proof. exact normB_attributes. Qed.
+
+Theorem C01_normB_int32_for_int64 :
+  forall (q : f32 -> N) (rn : N -> N) (z : Z), normB q rn WInt32 VT_Int64 (VInt32 z) = VInt64 z.
+Proof. exact normB_int32_for_int64. Qed.
+
+Theorem C01_normB_float32_for_float64 :
+  forall (q : f32 -> N) (rn : N -> N) (x : f32),
+       normB q rn WFloat32 VT_Float64 (VFloat32 x) = VFloat64 (f64_of_f32 x).
+Proof. exact normB_float32_for_float64. Qed.
 
